@@ -184,3 +184,25 @@ func VerifC07Mutations() {
 	}
 	c07Check(src, false)
 }
+
+var c07Fillers = []string{")", "a", "1", "{"}
+var c07Tails = []string{"\"", "'abc", "/* x", "r\"q", "\"a{{", "#", "a.", "\x01", ""}
+var c07Trail = []string{"", " ", "\n", " b"}
+
+// VerifC07ErrorTail: the parser gives up early (or not) on a first token, M further filler tokens follow (more than
+// the look-ahead buffer holds) and the input ends in a lexical error or an unfinished token, optionally followed by
+// white space: whatever the lexer still has to deliver after the parser stopped listening, Parse returns with
+// nothing left running.
+func VerifC07ErrorTail() {
+	first := zz.Choice("first", zz.Param("T", 38))
+	f := zz.Choice("filler", len(c07Fillers))
+	m := zz.Choice("m", zz.Param("M", 8)+1)
+	tail := zz.Choice("tail", len(c07Tails))
+	trail := zz.Choice("trail", len(c07Trail))
+	src := c07Texts[first] + " "
+	for i := 0; i < m; i++ {
+		src += c07Fillers[f] + " "
+	}
+	src += c07Tails[tail] + c07Trail[trail]
+	c07Check(src, false)
+}
